@@ -68,6 +68,8 @@ type Engine struct {
 	res       *RunResult
 	stop      bool
 	maxWalkID int
+	deleted   map[string]bool
+	dropped   map[string]bool
 }
 
 // NewEngine builds fresh clients for the world.
@@ -393,8 +395,35 @@ func (e *Engine) exec1(step int, cmd *Cmd, twin bool) {
 		e.noteWrite(cmd, mc)
 	}
 	_ = pre
+	var snap *Model
+	if len(cmd.KeyExtra) > 0 {
+		snap = e.M.Clone()
+	}
+	var before Item
+	if mt != nil && (cmd.Op == "Put" || cmd.Op == "Update" || cmd.Op == "Delete") {
+		k := cmd.Key
+		if cmd.Op == "Put" {
+			k = cmd.Item
+		}
+		if keyProblem(mt.Def.KeyAttrs(), k, false) == "" {
+			before = mt.Items[KeyID(mt.Def, k)].Clone()
+		}
+	}
 	ex := e.M.Apply(cmd)
 	got := drv.Exec(cmd)
+	if snap != nil && got.Failed() {
+		// a Key map with attributes beyond the key schema may be rejected, or
+		// served as if only the key attributes had been given (C13): on
+		// rejection the model is rolled back and the call must leave no trace
+		e.M = snap
+		ex = Expect{AnyFail: true}
+		e.probe("key-extra-rejected")
+	} else if snap != nil {
+		e.probe("key-extra-served")
+	}
+	if ex.Applied && mt != nil {
+		e.reachWrite(cmd, mt, before)
+	}
 	st.Out = got
 	e.logf("  -> %s", outcomeLine(got))
 	e.countFaults(cmd, got)
@@ -411,6 +440,7 @@ func (e *Engine) exec1(step int, cmd *Cmd, twin bool) {
 	if simrt.HeldMutexes() > 0 {
 		fails = append(fails, Fail{"C08.alive", "a mutex is still held after the call returned"}, Fail{"C11.dead", "a mutex is still held after the call returned"})
 	}
+	fails = keyExtraRules(cmd, fails)
 	st.Fails = fails
 	e.addFails(step, cmd, fails)
 	if e.stop {
@@ -514,10 +544,26 @@ func (e *Engine) afterStep(step int, cmd *Cmd, got Outcome, ex Expect, st *Step)
 			break
 		}
 	}
+	fails = keyExtraRules(cmd, fails)
 	st.Fails = append(st.Fails, fails...)
 	e.logf("  state %s", hashStr(strings.Join(e.lastSig, "\n#\n")))
 	e.addFails(step, cmd, fails)
 	e.reach(cmd, got)
+}
+
+// keyExtraRules: for a request whose Key map carried attributes beyond the key
+// schema, a wrong response or state is (also) a violation of C13.reject: the
+// extra attribute must not end up stored or returned.
+func keyExtraRules(cmd *Cmd, fails []Fail) []Fail {
+	if len(cmd.KeyExtra) == 0 {
+		return fails
+	}
+	for _, f := range fails {
+		if strings.HasPrefix(f.Rule, "C01.") {
+			return append(fails, Fail{"C13.reject", "request Key carried " + cmd.KeyExtra.Canon() + " beyond the key schema: " + f.Msg})
+		}
+	}
+	return fails
 }
 
 func hashStr(s string) string {
@@ -546,6 +592,19 @@ func (e *Engine) noteWrite(cmd *Cmd, mc *MClient) {
 			ws.interfered = true
 			ws.touched[KeyID(mt.Def, k)] = true
 			ws.bound++
+			if ws.lastLEK != nil && keyProblem(mt.Def.KeyAttrs(), k, false) == "" && KeyID(mt.Def, k) == KeyID(mt.Def, ws.lastLEK) {
+				what, dir, where := "rewritten", "forward", "base"
+				if cmd.Op == "Delete" {
+					what = "deleted"
+				}
+				if ws.open.Back {
+					dir = "backward"
+				}
+				if ws.open.Index != "" {
+					where = "index"
+				}
+				e.probe("c04-boundary-item-" + what + "-before-resume-" + dir + "-" + where)
+			}
 		case "BatchWrite":
 			for _, r := range cmd.Batch {
 				if r.T != t || mt == nil {
@@ -632,6 +691,22 @@ func (e *Engine) page(ws *walkState, cmd *Cmd, ex Expect, got Outcome) []Fail {
 	}
 	ws.items = append(ws.items, got.Items...)
 	if got.LEK != nil {
+		if mt := e.M.Clients[ws.open.C].Tables[ws.open.T]; mt != nil && ws.open.Index != "" {
+			if ix := mt.Def.index(ws.open.Index); ix != nil && InIndex(*ix, got.LEK) {
+				same := 0
+				for _, it := range mt.Items {
+					if InIndex(*ix, it) && keyOfIndex(*ix, it) == keyOfIndex(*ix, got.LEK) {
+						same++
+					}
+				}
+				if same > 1 {
+					e.probe("c04-boundary-inside-a-run-of-equal-index-keys")
+				}
+			}
+		}
+		if len(got.Items) == 0 || !itemsEq(keyOfAny(got.Items[len(got.Items)-1], got.LEK), got.LEK) {
+			e.probe("c04-boundary-on-an-item-the-filter-or-page-did-not-return")
+		}
 		k := got.LEK.Canon()
 		if ws.leks[k] {
 			add("C04.live", "LastEvaluatedKey %s handed back twice in one walk", k)
@@ -723,12 +798,136 @@ func (e *Engine) FinishWalks(step int, nextID func() int) {
 	}
 }
 
+// reachWrite counts the write shapes the statements of C01 and C03 single out.
+func (e *Engine) reachWrite(cmd *Cmd, mt *MTable, before Item) {
+	if cmd.ID < 0 {
+		return
+	}
+	k := cmd.Key
+	if cmd.Op == "Put" {
+		k = cmd.Item
+	}
+	id := KeyID(mt.Def, k)
+	kid := fmt.Sprintf("%d/%s/%s", cmd.C, cmd.T, id)
+	after := mt.Items[id]
+	if e.deleted == nil {
+		e.deleted = map[string]bool{}
+	}
+	switch cmd.Op {
+	case "Put":
+		switch {
+		case before != nil:
+			e.probe("c01-overwrite")
+			if len(after) < len(before) {
+				e.probe("c01-shrinking-attribute-set")
+			}
+		case e.deleted[kid]:
+			e.probe("c01-delete-then-reput")
+		}
+	case "Update":
+		switch {
+		case before == nil && e.deleted[kid]:
+			e.probe("c01-update-on-key-deleted-earlier")
+		case before == nil:
+			e.probe("c01-update-creates-item")
+		case len(after) < len(before):
+			e.probe("c01-attribute-removed-by-update")
+		}
+	case "Delete":
+		if before == nil {
+			e.probe("c01-delete-absent")
+		} else {
+			e.deleted[kid] = true
+		}
+	}
+	if after != nil {
+		delete(e.deleted, kid)
+	}
+	// index shapes
+	for _, ix := range mt.Def.Indexes {
+		was, is := before != nil && InIndex(ix, before), after != nil && InIndex(ix, after)
+		others, sharing := 0, 0
+		for oid, it := range mt.Items {
+			if oid == id || !InIndex(ix, it) {
+				continue
+			}
+			others++
+			ref := after
+			if ref == nil {
+				ref = before
+			}
+			if ref != nil && InIndex(ix, ref) && keyOfIndex(ix, it) == keyOfIndex(ix, ref) {
+				sharing++
+			}
+		}
+		pfx := "c03-" + strings.ToLower(cmd.Op)
+		switch {
+		case !was && is && before != nil:
+			e.probe(pfx + "-gives-existing-item-an-index-key")
+		case !was && is:
+			e.probe(pfx + "-new-item-enters-index")
+		case was && is && keyOfIndex(ix, before) != keyOfIndex(ix, after):
+			e.probe(pfx + "-changes-index-key")
+		case was && !is && after != nil:
+			e.probe(pfx + "-drops-index-key")
+		case was && after == nil:
+			e.probe("c03-delete-of-indexed-item")
+		case !was && after == nil && before != nil && others > 0:
+			e.probe("c03-delete-of-non-indexed-item-while-others-indexed")
+		}
+		if (was || is) && others > 0 {
+			e.probe("c03-write-with-other-items-in-index")
+		}
+		if sharing > 0 {
+			e.probe("c03-write-with-items-sharing-the-index-key")
+		}
+	}
+}
+
+// keyOfAny projects an item on the attribute names of a continuation key.
+func keyOfAny(it, lek Item) Item {
+	k := Item{}
+	for n := range lek {
+		if v, ok := it[n]; ok {
+			k[n] = v
+		}
+	}
+	return k
+}
+
+func keyOfIndex(ix IndexDef, it Item) string {
+	s := it[ix.Hash.Name].Canon()
+	if ix.Range != nil {
+		s += "|" + it[ix.Range.Name].Canon()
+	}
+	return s
+}
+
 // reach counts how often the shapes the properties single out were hit.
 func (e *Engine) reach(cmd *Cmd, got Outcome) {
 	if cmd.ID < 0 {
 		return
 	}
 	e.probe("op-" + cmd.Op)
+	if mc := e.M.Clients[cmd.C]; got.OK() && cmd.T != "" && mc.Tables[cmd.T] != nil {
+		n := len(mc.Tables[cmd.T].Items)
+		switch cmd.Op {
+		case "IndexCreate":
+			if n > 0 {
+				e.probe("c03-index-created-over-non-empty-table")
+			}
+		case "Create":
+			if e.dropped[fmt.Sprintf("%d/%s", cmd.C, cmd.T)] {
+				e.probe("c18-table-re-created-under-a-dropped-name")
+			}
+		}
+	}
+	if got.OK() && cmd.Op == "Drop" {
+		if e.dropped == nil {
+			e.dropped = map[string]bool{}
+		}
+		e.dropped[fmt.Sprintf("%d/%s", cmd.C, cmd.T)] = true
+	}
 	if got.Failed() {
 		e.probe("failed-" + cmd.Op)
 	}
